@@ -39,7 +39,22 @@ var (
 	baseline = map[key]string{}
 	unstable = map[int]bool{}
 	checked  = map[int]int{}
+
+	reportedUnstable = map[int]bool{}
 )
+
+// bad: a result that is a failure by itself, whatever the reference says: a panic that escaped the workload, or
+// two complete runs of one iterator value that disagree
+func bad(res string) bool {
+	return strings.HasPrefix(res, "PANIC:") || strings.HasPrefix(res, "INCONSISTENT:")
+}
+
+func clip(s string) string {
+	if len(s) > 300 {
+		return s[:300] + "..."
+	}
+	return s
+}
 
 func safeRun(w workload, inst int) (res string) {
 	defer func() {
@@ -183,11 +198,24 @@ func main() {
 			// numbers): a lazily filled package-level cache must meet its first writers concurrently.
 			for j, s := range slots {
 				want := base(s.wi, s.inst)
+				if unstable[s.wi] && !reportedUnstable[s.wi] {
+					// on the unchanged tree every digest is reproducible (checked on every run): a workload whose
+					// result changes between two runs of ONE goroutine has met state that survives its instances
+					reportedUnstable[s.wi] = true
+					mism++
+					status[j] = "DIFF"
+					fmt.Fprintf(out, "# DIFF goroutine=%d wl=%s inst=%d the result of this workload run ALONE is not reproducible (two sequential runs differ)\n", j, workloads[s.wi].name, s.inst)
+				}
+				if bad(want) {
+					mism++
+					status[j] = "DIFF"
+					fmt.Fprintf(out, "# DIFF goroutine=%d wl=%s inst=%d sequential reference run: %s\n", j, workloads[s.wi].name, s.inst, clip(want))
+				}
 				for r, got := range o.res[j] {
-					if got != want {
+					if got != want || bad(got) {
 						mism++
 						status[j] = "DIFF"
-						fmt.Fprintf(out, "# DIFF goroutine=%d wl=%s inst=%d rep=%d got=%s want=%s\n", j, workloads[s.wi].name, s.inst, r, got, want)
+						fmt.Fprintf(out, "# DIFF goroutine=%d wl=%s inst=%d rep=%d got=%s want=%s\n", j, workloads[s.wi].name, s.inst, r, clip(got), clip(want))
 						break
 					}
 				}
